@@ -244,12 +244,17 @@ class Instance:
         checking_types = [self.type, self.origin_type]
         if is_annotated(self._original_type):
             checking_types.insert(0, self._original_type)
+        field_strategy = self.metadata.get("serialization_strategy")
         for typ in checking_types:
             for (
                 strategy
             ) in self.__owner_builder.iter_serialization_strategies(
                 self.metadata, typ
             ):
+                if strategy is not None and strategy is field_strategy:
+                    # the strategy of the field applies to the field, not
+                    # to the types its result is made of
+                    self.metadata.pop("serialization_strategy", None)
                 if strategy is pass_through:
                     return pass_through
                 elif isinstance(strategy, dict):
